@@ -405,6 +405,11 @@ func (s *Sim) AdvDeal(claim, sealer, rcpt int, variant string) *dkg.Deal {
 		case strings.HasPrefix(variant, "sidraw"):
 			deal.SessionID = s.rng.Bytes(32)
 		}
+	case strings.HasPrefix(variant, "Tc"): // self-consistent deal of threshold v: v commitments, fitting share and session id
+		parts := strings.Split(variant[2:], "p")
+		tv := num(parts[0])
+		c, C := mk(num(parts[1]), tv)
+		deal = &vss.Deal{SessionID: sidOf(C, tv), SecShare: &share.PriShare{I: rcpt, V: Scalar(Eval(c, int64(rcpt)+1))}, T: uint32(tv), Commitments: C}
 	case strings.HasPrefix(variant, "Tx"), strings.HasPrefix(variant, "T"):
 		bind := !strings.HasPrefix(variant, "Tx")
 		body := strings.TrimPrefix(strings.TrimPrefix(variant, "Tx"), "T")
